@@ -4,10 +4,17 @@ From V Require Import Common.Bytes Store.Fs Store.Ops Store.ProofsAlist Store.Pr
 Import ListNotations.
 Open Scope N_scope.
 
+Lemma prstate_eqb_spec a b : prstate_eqb a b = true <-> a = b.
+Proof. destruct a, b; cbn; split; intros H; try reflexivity; try discriminate. Qed.
+
 Lemma dfile_eqb_spec a b : dfile_eqb a b = true <-> a = b.
 Proof.
-  destruct a, b; cbn; try (split; [discriminate | intros H; discriminate H]); rewrite ?andb_true_iff, ?N.eqb_eq; split;
-    try tauto; try (intros [-> ->]; reflexivity); try (intros ->; reflexivity); try (intros [= -> ->]; auto); try (intros [= ->]; auto).
+  destruct a as [|h|h i st|h c|h], b as [|h'|h' i' st'|h' c'|h']; cbn; try (split; [discriminate | intros H; discriminate H]).
+  - tauto.
+  - rewrite N.eqb_eq. split; [intros ->; reflexivity | intros [= ->]; reflexivity].
+  - rewrite !andb_true_iff, !N.eqb_eq, prstate_eqb_spec. split; [intros [[-> ->] ->]; reflexivity | intros [= -> -> ->]; auto].
+  - rewrite !andb_true_iff, !N.eqb_eq. split; [intros [-> ->]; reflexivity | intros [= -> ->]; auto].
+  - rewrite N.eqb_eq. split; [intros ->; reflexivity | intros [= ->]; reflexivity].
 Qed.
 
 Definition is_colon (d : dfile) : bool := match d with DColon _ _ | DColonPartial _ => true | _ => false end.
